@@ -41,7 +41,8 @@ def plan(tier, seed):
     for n in (1, 2, 3):
         for so in fix.orders(n):
             specs.append(dict(kind='pairs', n=n, source=so,
-                              targets=fix.orders(n), seed=seed))
+                              targets=fix.orders(n), seed=seed,
+                              reordered_source=(so != sorted(so))))
     k = 8 if tier == 'thorough' else 3
     r = random.Random(f'c11:{seed}')
     o4 = fix.orders(4)
@@ -74,10 +75,15 @@ def run_pairs(spec, out):
     nm = fix.names(n)
     F = tt.full(n)
     so = spec['source']
-    base = dict(kind='pairs', n=n, source=so, seed=spec['seed'])
+    base = dict(kind='pairs', n=n, source=so, seed=spec['seed'],
+                reordered_source=spec.get('reordered_source', False))
     # source managers (dd.bdd and dd.autoref views of the same content)
     SA = _ar.BDD()
-    SA.declare(*so)
+    if spec.get('reordered_source'):
+        SA.declare(*sorted(so))
+        SA.reorder({x: l for l, x in enumerate(so)})
+    else:
+        SA.declare(*so)
     src = SA._bdd
     sbd = Builder(src, nm)
     srefs = [sbd(t) for t in range(F + 1)]
@@ -183,7 +189,12 @@ def check_random_case(case):
         inv.check_order(T._bdd)
         return so != sorted(so)
     S = _ar.BDD()
-    S.declare(*so)
+    if case['src_history']:
+        # declaration order differs from the level order `so`
+        S.declare(*sorted(so))
+        S.reorder({x: l for l, x in enumerate(so)})
+    else:
+        S.declare(*so)
     sbd = Builder(S._bdd, nm)
     roots_t = case['roots']
     sf = [_ar.Function(sbd(t), S) for t in roots_t]
@@ -207,7 +218,12 @@ def check_random_case(case):
     elif case['form'] == 1:
         rs = [_ar.copy_bdd(f, T) for f in sf]
     elif case['form'] == 2:
-        rs = _copy.copy_bdds_from(sf, T)
+        roots_arg = sf
+        if case['tgt_history']:
+            roots_arg = (f for f in sf)       # any iterable of roots
+        elif case['src_history']:
+            roots_arg = iter(sf)
+        rs = _copy.copy_bdds_from(roots_arg, T)
     else:
         rs = [_ar.Function(_bdd.copy_bdd(f.node, S._bdd, T._bdd), T)
               for f in sf]
@@ -282,4 +298,5 @@ def replay_into(case, out):
         out.count(1, 0)
     else:
         run_pairs(dict(kind='pairs', n=case['n'], source=case['source'],
-                       targets=[case['target']], seed=case['seed']), out)
+                       targets=[case['target']], seed=case['seed'],
+                       reordered_source=case.get('reordered_source')), out)
